@@ -27,6 +27,16 @@ def run_prop(args):
 
 
 def main(dirs):
+    import fcntl
+    lock = open('/tmp/evalwt.lock', 'w')
+    fcntl.flock(lock, fcntl.LOCK_EX)      # one evaluation at a time: the scratch worktree is shared
+    try:
+        return _main(dirs)
+    finally:
+        fcntl.flock(lock, fcntl.LOCK_UN)
+
+
+def _main(dirs):
     if not os.path.isdir(WT):
         subprocess.check_call(['git', '-C', '/repo', 'worktree', 'add', '-q', '--detach', WT, 'HEAD'])
     subprocess.check_call(['git', '-C', WT, 'checkout', '-q', '--detach', subprocess.check_output(['git', '-C', '/repo', 'rev-parse', 'HEAD']).decode().strip()])
